@@ -32,6 +32,25 @@ def probe_candles(n=6):
     return rows
 
 
+def reading(T):
+    """every session's strategy also uses the documented cross-route scratch space (shared_vars) and a non-sequential indicator
+    (whose input is cut by helpers.slice_candles according to the session's warm-up configuration), and records what it saw"""
+    base = T.before
+
+    def before(self):
+        base(self)
+        import jesse.indicators as ta
+        import jesse.helpers as jh
+        seen = self.shared_vars.get('steps-seen', 0)
+        self.shared_vars['steps-seen'] = seen + 1
+        v = ta.sma(self.candles, 4)
+        rec = S.REC
+        if rec is not None:
+            rec.hooks[-1][2]['reads'] = (self.index, seen, None if v != v else float(v), len(jh.slice_candles(self.candles, False)))
+    T.before = before
+    return T
+
+
 def observe(rec):
     fills = []
     for (kind, t, pl) in rec.events:
@@ -43,7 +62,8 @@ def observe(rec):
         trades.append({'type': t.type, 'qty': t.qty, 'entry': t.entry_price, 'exit': t.exit_price, 'pnl': t.pnl, 'fee': t.fee,
                        'opened_at': t.opened_at, 'closed_at': t.closed_at})
     ex = rec.refs.get('exchange_obj')
-    return {'fills': fills, 'trades': trades, 'assets': dict(ex.assets) if ex is not None else None,
+    reads = [pl['reads'] for (t, h, pl) in rec.hooks if h == 'before' and 'reads' in pl]
+    return {'reads': reads, 'fills': fills, 'trades': trades, 'assets': dict(ex.assets) if ex is not None else None,
             'exchange_type': type(ex).__name__ if ex is not None else None, 'n_orders': len(rec.orders),
             'leverage': getattr(ex, 'futures_leverage', None), 'mode': getattr(ex, 'futures_leverage_mode', None),
             'result_keys': sorted(rec.result.keys()) if getattr(rec, 'result', None) else None}
@@ -52,6 +72,7 @@ def observe(rec):
 def run_probe(fee, bal, exch_type='futures', name=S.EXCHANGE, fast=False):
     T = S.make_template(side='long', entry=None, stop=95.0, take=105.0, qty=1.0, on_open_exits=(exch_type == 'spot'),
                         exit_qty_from_position=(exch_type == 'spot'), name='Probe')
+    T = reading(T)
     cfg = S.config_dict(exch_type, leverage=2, mode='cross', fee=fee, balance=bal, exchange=name)
     candles = S.make_candles(probe_candles())
     routes_before = None
@@ -77,6 +98,7 @@ def run_a(ctx, variant):
         entry = [(1.0, 100.0), (100000.0, 100.0)]  # the second row cannot be afforded: InsufficientMargin after the first was queued
     T = S.make_template(side='long', entry=entry, stop=90.0, take=104.0, qty=1.0, on_open_exits=(v['exch_type'] == 'spot'),
                         exit_qty_from_position=(v['exch_type'] == 'spot'), name='A')
+    T = reading(T)
     if v['abort_at'] is not None:
         hook = v['abort_hook']
         base = getattr(T, hook)
@@ -191,6 +213,8 @@ def compare(ctx, a, b, tag):
     flags = {'when': tag}
     ctx.prove(a['exchange_type'] == b['exchange_type'] and a['leverage'] == b['leverage'] and a['mode'] == b['mode'],
               'C11:same-account-type-and-leverage', dict(flags, fresh=(a['exchange_type'], a['leverage'], a['mode']), later=(b['exchange_type'], b['leverage'], b['mode'])))
+    ctx.prove([list(x) for x in a['reads']] == [list(x) for x in b['reads']], 'C11:same-values-read-by-the-strategy',
+              dict(flags, what='(index, shared_vars counter, sma(4), candles given to a non-sequential indicator)', fresh=a['reads'], later=b['reads']))
     ok = ctx.prove(len(a['fills']) == len(b['fills']) and a['n_orders'] == b['n_orders'], 'C11:same-number-of-orders-and-fills',
                    dict(flags, fresh=len(a['fills']), later=len(b['fills'])))
     if ok:
@@ -219,6 +243,7 @@ VARIANTS = {
     'other_exchange': {'name': 'Other Exchange'},
     'other_symbol_tf': {'symbol': 'ETH-USDT', 'tf': '3m', 'data': ['3m']},
     'warmup_fast': {'warm': 3, 'fast': True},
+    'warmup': {'warm': 3},
     'abort_step0': {'abort_at': 0},
     'abort_step2': {'abort_at': 2},
     'insufficient_margin': {'poor': True},
@@ -234,7 +259,7 @@ def _jobs(tier):
     def add(vn, **kw):
         jobs.append(Job('abb_%s_%s' % (vn, '_'.join(str(x) for x in kw.values())), h_abb, dict(variant=VARIANTS[vn], **kw),
                         {'fork_per_path': True, 'max_decisions': 4000}))
-    names = list(VARIANTS) if tier != 'quick' else ['same', 'other_fee_leverage', 'spot_same_name', 'other_exchange', 'abort_step2', 'insufficient_margin', 'abort_after_entry', 'second_entry_rejected']
+    names = list(VARIANTS) if tier != 'quick' else ['same', 'other_fee_leverage', 'spot_same_name', 'other_exchange', 'warmup', 'abort_step2', 'insufficient_margin', 'abort_after_entry', 'second_entry_rejected']
     for vn in names:
         add(vn, probe_type='futures')
     add('same', probe_type='spot')
